@@ -11,7 +11,7 @@ from vf.ref import hashing
 
 ID = "C03"
 LEVEL = "exploration"
-TECHNIQUE = "Hypothesis-generated trees x piece lengths x two hybrid creators; v1 stream rebuilt from info.files/info.length and hashed by the BEP 3 reference, cross-checked against the file tree ; optional second act (one file rewritten in place, same process creates again)"
+TECHNIQUE = "Hypothesis-generated trees x piece lengths x two hybrid creators; v1 stream rebuilt from info.files/info.length and hashed by the BEP 3 reference, cross-checked against the file tree ; optional second act (one file rewritten in place, same process creates again) and optional warm-up (unrelated create with another creator / piece length first)"
 RULE = ("Cases: generated tree (single file or directory) x piece length x creator in {TorrentFileHybrid, TorrentAssembler "
         "hybrid} x route. Oracle: non-pad entries of info.files = file-tree leaves in order with equal lengths and equal to the "
         "files on disk; every non-pad entry starts at a multiple of P in the v1 stream; pad entries are marked attr p; "
@@ -38,7 +38,7 @@ def strategy(tier):
         if creator == "Assembler3":
             route = draw(st.sampled_from(["lib", "cli"]))
         t = draw(trees.tree(P, max_files=8 if tier == "quick" else 20, cli_safe=(route == "cli")))
-        return {"tree": t, "P": P, "creator": creator, "route": route, "again": draw(common.second_act())}
+        return {"tree": t, "P": P, "creator": creator, "route": route, "again": draw(common.second_act()), "warm": draw(common.warmup())}
     return case()
 
 
@@ -64,11 +64,17 @@ def run_case(case):
     with sandbox.Scratch("c03") as scr:
         root = common.make(scr, tree)
         out = os.path.join(scr, "out", "o.torrent")
+        warmed = common.apply_warmup(scr, case.get("warm"))
         try:
             m = common.create(case["creator"], case["route"], root, out, P)
         except Exception as e:
             return Outcome(Violation("C03:exception:%s" % type(e).__name__, "create raised %r" % (e,)), True, ["exception"])
         first = judge(m, tree, P)
+        if warmed:
+            first.classes = tuple(first.classes) + ("after-warm-up", "after-warm-up-other-P" if case["warm"]["P"] != P else "after-warm-up-same-P")
+            if first.violation is not None:
+                first.violation.sig = "C03:warmed:" + first.violation.sig.split(":", 1)[1]
+                first.violation.msg = "after an unrelated create in the same process (%s, piece length %d): %s" % (case["warm"]["creator"], case["warm"]["P"], first.violation.msg)
         if first.violation is not None or not case.get("again"):
             return first
         tree2 = common.apply_second_act(tree, root, case["again"])
